@@ -61,8 +61,11 @@ func init() {
 				return []engine.Module{servicemod.New(), oraclefeed.New(), sys.NewParamLab()}
 			},
 		})
-		if p := engine.GetProperty("C07"); p != nil {
-			p.Profile = "service-feeds"
+		// C08's callback clause needs module-owned contexts as well
+		for _, id := range []string{"C07", "C08"} {
+			if p := engine.GetProperty(id); p != nil {
+				p.Profile = "service-feeds"
+			}
 		}
 	}
 	for _, name := range []string{"amm", "farm", "htlc", "service", "token", "oraclefeed", "random"} {
